@@ -79,3 +79,46 @@ def closedopen(lo, hi):
 
 def empty():
     return Interval()
+
+
+# ---- discrete (integer) intervals as btpu.agent uses them --------------------------------------------------------
+class AbstractDiscreteInterval(Interval):
+    '''Integer-domain intervals: closed(a, b) is {a, ..., b}; adjacent intervals merge (held as half-open ranges
+    [lo, hi + 1) of integers).'''
+    _step = 1
+
+
+class _Api(object):
+    def __init__(self, cls):
+        self._cls = cls
+
+    def empty(self):
+        return self._cls()
+
+    def singleton(self, x):
+        return self._cls([(x, x + 1)])
+
+    def closed(self, lo, hi):
+        return self._cls([(lo, hi + 1)])
+
+    def closedopen(self, lo, hi):
+        return self._cls([(lo, hi)])
+
+
+def create_api(cls):
+    return _Api(cls)
+
+
+def _same_class(self, other):
+    return type(self)(self._parts + other._parts)
+
+
+Interval.__or__ = _same_class
+
+
+def iterate(interval, step=1):
+    for lo, hi in interval._parts:
+        x = lo
+        while x < hi:
+            yield x
+            x += step
